@@ -1,4 +1,5 @@
 import DyntplV.Impl
+import DyntplV.QB
 /-!
 # C15 — a variable always reads back its most recent assignment
 
@@ -175,8 +176,8 @@ theorem ok_static (c : Ctx) (cs : CtxSpec) (hs : cs.srcStatic = true) (hok : cs.
 
 /-- A path without a square bracket is compared as it stands, inside counter loops too. -/
 theorem cmpPath_plain (vars : Vars) (qb : Bool) (k : Bytes) (hb : indexOf 91 k = none) : cmpPath vars qb k = some k := by
-  unfold cmpPath replaceQB
-  cases qb <;> simp [hb]
+  unfold cmpPath
+  cases qb <;> simp [replaceQB_plain _ _ hb]
 
 /-- A name that has just become a counter compares as that integer — whatever it held before (a struct with an
     inspector of its own, a list, bytes: the sixth round's seeded change C02-r6m1 kept the old inspector). -/
